@@ -45,6 +45,8 @@ var c04Wide = append(append([]c04Operand{}, c04Operands...),
 	c04Operand{"empty", func() rj.Expr { return rj.S("") }},
 	c04Operand{"float7.5", c04V("f75")},
 	c04Operand{"lit7.5", func() rj.Expr { return rj.N(7.5) }},
+	c04Operand{"bigA", c04V("bigA")},
+	c04Operand{"bigB", c04V("bigB")},
 )
 
 func c04Mk(log *[]string) rj.Inputs {
@@ -53,7 +55,7 @@ func c04Mk(log *[]string) rj.Inputs {
 	}
 	return rj.Inputs{
 		Vars: map[string]interface{}{
-			"a7": 7, "a2": 2, "an3": -3, "a0": 0, "f25": 2.5, "f75": 7.5, "sAb": "ab", "s3": "3", "b5": int64(5), "g15": float32(1.5),
+			"a7": 7, "a2": 2, "an3": -3, "a0": 0, "f25": 2.5, "f75": 7.5, "sAb": "ab", "s3": "3", "b5": int64(5), "g15": float32(1.5), "bigA": int64(1)<<62 + 1, "bigB": int64(1) << 62,
 			"sl": []int{7, 2}, "id": func(x int) int { return x },
 			"pT": probe("pT", true), "pF": probe("pF", false), "qT": probe("qT", true), "qF": probe("qF", false),
 			"rT": probe("rT", true), "rF": probe("rF", false),
@@ -76,6 +78,8 @@ func c04Printer(style int) *rj.Printer {
 		p.Full = true
 	case 2:
 		p.Pad = " "
+	case 3:
+		p.Words = true
 	}
 	return p
 }
@@ -209,7 +213,7 @@ var c04Three = registerSpace(&e1Space{
 		if th {
 			ops = int64(len(c04LevelOps2))
 		}
-		return 5 * ops * ops * ops * 81 * 2
+		return 5 * ops * ops * ops * 81 * 3
 	},
 	Gen: func(i int64, th bool) *rj.Program {
 		set := c04LevelOps
@@ -217,7 +221,7 @@ var c04Three = registerSpace(&e1Space{
 			set = c04LevelOps2
 		}
 		ops := int64(len(set))
-		i /= 2
+		i /= 3
 		sh := int(i % 5)
 		i /= 5
 		o := []string{set[i%ops], set[(i/ops)%ops], set[(i/(ops*ops))%ops]}
@@ -229,7 +233,7 @@ var c04Three = registerSpace(&e1Space{
 		}
 		return c04Prog(c04ThreeTree(sh, o, x))
 	},
-	Printer:  func(i int64) *rj.Printer { return c04Printer(int(i % 2)) },
+	Printer: func(i int64) *rj.Printer { return c04Printer([]int{0, 1, 3}[i%3]) },
 	Quirks: []string{"float-mod-truncates-operands"},
 })
 
@@ -331,9 +335,9 @@ func c04Lazy() []func() rj.Expr {
 
 var c04LazySpace = registerSpace(&e1Space{
 	Prop: "C04", Name: "lazy",
-	N:    func(th bool) int64 { return int64(len(c04Lazy())) * 2 },
-	Gen:  func(i int64, th bool) *rj.Program { return c04Prog(c04Lazy()[i/2]()) },
-	Printer: func(i int64) *rj.Printer { return c04Printer(int(i % 2)) },
+	N:    func(th bool) int64 { return int64(len(c04Lazy())) * 3 },
+	Gen:  func(i int64, th bool) *rj.Program { return c04Prog(c04Lazy()[i/3]()) },
+	Printer: func(i int64) *rj.Printer { return c04Printer([]int{0, 1, 3}[i%3]) },
 	Extra: func(p *rj.Program, ref rj.Result, got rj.ImplResult) string {
 		if strings.Join(ref.Log, ",") != strings.Join(got.Log, ",") {
 			return fmt.Sprintf("operands evaluated %v, the reference evaluates exactly %v", got.Log, ref.Log)
